@@ -55,10 +55,17 @@ func (c18) Gen(r *Rand, idx int, tier string) interface{} {
 	if r.Pct(50) && g > 4 {
 		g = 2 + r.Intn(3)
 	}
+	long := r.Pct(3)
+	if long {
+		g = 2 // few holders, many acquisitions: the pool-eviction faults drive the id counter far up
+	}
 	for t := 0; t < g; t++ {
 		n := 2 + r.Intn(10)
 		if g > 16 {
 			n = 2 + r.Intn(4)
+		}
+		if long {
+			n = 500 + r.Intn(300)
 		}
 		var prog []c18Op
 		slots := 1 + r.Intn(3)
